@@ -37,6 +37,7 @@
   decimal; trigger `hasOctalPlain`.
 -/
 import RtoscModel.Proofs.ScanPrint
+import RtoscModel.Proofs.ScanRange
 namespace Rtosc.Pretty.C11
 open Rtosc Rtosc.Libc Rtosc.Pretty
 open Rtosc.ArgVal (Cell Item flatList expandList)
@@ -218,6 +219,51 @@ theorem print_scan_fixpoint_partial (s : Sentence) (L : Layout) (cs : List Cell)
     · rw [← hc]
       exact ⟨by simpa [gapsBytes] using countPrintedArgVals_lay [] hl,
         by simpa [gapsBytes] using scanArgVals_lay [] hl⟩
+
+/-! ### integer ranges (first step beyond `Proved`) -/
+
+/-- a sentence that starts with a range `b ... c` of two different 'i' integers in decimal spelling
+    (nothing stands to its left: the step is `sgn(c - b)`), with at least one white-space character
+    in front of the dots, followed by any `Proved` values, is read as the range header, the step,
+    the start and the cells of the other values — under every layout in which no comment follows
+    a value directly -/
+theorem reads_range_first (x z : Int) (hx1 : -2147483648 ≤ x) (hx2 : x ≤ 2147483647)
+    (hz1 : -2147483648 ≤ z) (hz2 : z ≤ 2147483647) (hxz : x ≠ z) (hwid : (z - x).natAbs ≤ 2147483646)
+    (s' : Sentence) (L : Layout) (hL : L.spaced) (hb : L.blank [0, 1] ≠ []) (hp : provedFrom L 1 s') :
+    Reads (render (rangeFirst x z s') L) (rangeCells x z ++ pCells s') := by
+  have hw1 : blankBytes (L.blank [0, 1]) ≠ [] := by
+    cases h : L.blank [0, 1] with
+    | nil => exact absurd h hb
+    | cons a b => simp [blankBytes]
+  have htail := tail_trail L.trail L.last hL.2
+  rw [render_rangeFirst]
+  cases s' with
+  | nil =>
+    have := range_first_lay x z hx1 hx2 hz1 hz2 hxz hwid L.lead _ _ (allWs_blank (L.blank [0, 1])) hw1
+      (allWs_blank (L.blank [0, 2])) (Follow.tail _ htail)
+    simp only [allCells, List.map_nil, List.flatten_nil, List.append_nil] at this
+    simpa [pCells, pcellsList] using (⟨this.1, this.2⟩ : Reads _ _)
+  | cons y r =>
+    obtain ⟨e, hs⟩ := sepBytes_fix (L.sep 0) (hL.1 0)
+    have hlay := argsLay_proved L hL.1 _ htail (y :: r) 1 (by simp) hp
+    have := range_first_lay x z hx1 hx2 hz1 hz2 hxz hwid L.lead _ _ (allWs_blank (L.blank [0, 1])) hw1
+      (allWs_blank (L.blank [0, 2])) (Follow.more _ _ _ hs hlay)
+    rw [allCells_pArgs, ← e] at this
+    exact ⟨this.1, this.2⟩
+
+/-- **checker_scanner_agree / scan_denotes for a leading integer range** (partial): the sentence
+    `b ... c v₁ v₂ …` (b ≠ c decimal 'i' integers with `|c - b| + 1 < 2³¹` values, `vᵢ` `Proved`)
+    denotes `|c - b| + 1` values from `b` in steps of ±1, and the checker counts and the scanner writes
+    exactly the cells of that denotation, consuming the whole text.  Ranges with a left neighbour
+    (`a b ... c`), ranges inside arrays, of other types or spellings, and open-ended arrays are NOT
+    proved (correspondence and oracle only). -/
+theorem range_first_partial (x z : Int) (hx1 : -2147483648 ≤ x) (hx2 : x ≤ 2147483647)
+    (hz1 : -2147483648 ≤ z) (hz2 : z ≤ 2147483647) (hxz : x ≠ z) (hwid : (z - x).natAbs ≤ 2147483646)
+    (s' : Sentence) (L : Layout) (hL : L.spaced) (hb : L.blank [0, 1] ≠ []) (hp : provedFrom L 1 s') :
+    ∃ cs, cells (rangeFirst x z s') = some cs ∧ Reads (render (rangeFirst x z s') L) cs ∧
+      cs.take 3 = [Cell.rep (((z - x).natAbs : Int) + 1) 1, Cell.int .i (if x < z then 1 else -1), Cell.int .i x] :=
+  ⟨_, cells_range_first x z hxz hwid s' L hp, reads_range_first x z hx1 hx2 hz1 hz2 hxz hwid s' L hL hb hp,
+    by simp [rangeCells]⟩
 
 /-! ### known finding C11-K1 -/
 
@@ -419,6 +465,24 @@ example : Reads (render exSentence exLayout) (valCells exSentence) := reads_plai
 example : String.ofList ((render exSentence exLayout0).map (fun b => Char.ofNat b.toNat)) =
     "-42 5000000000h '\\n' 'A' MIDI [0x01 0x02 0xfe 0xff] \"hi\\n\"\\\"\"\\\"\\\"\" \"\"S An_Identifier_12345 BLOB [2 0x72 0x74] now 123i #8badf00d" := by
   decide +kernel
+
+/-- the messy layout with a blank and a line break in front of the dots of a leading range -/
+def exLayoutRange : Layout := { exLayout with blank := fun p => if p = [0, 1] then [.sp, .nl] else [] }
+
+/-- non-vacuity: `10 ... 2 "s" [1 2]` under the messy layout with a blank in front of the dots -/
+example : ∃ cs, cells (rangeFirst 10 2 [.val (.str false [[.raw 115]]), .arr [.val (.int 1 .dec false), .val (.int 2 .dec false)] false]) = some cs ∧
+    Reads (render (rangeFirst 10 2 [.val (.str false [[.raw 115]]), .arr [.val (.int 1 .dec false), .val (.int 2 .dec false)] false])
+      exLayoutRange) cs ∧
+    cs.take 3 = [Cell.rep 9 1, Cell.int .i (-1), Cell.int .i 10] := by
+  have := range_first_partial 10 2 (by decide) (by decide) (by decide) (by decide) (by decide) (by decide)
+    [.val (.str false [[.raw 115]]), .arr [.val (.int 1 .dec false), .val (.int 2 .dec false)] false]
+    exLayoutRange
+    ⟨exLayout_spaced.1, exLayout_spaced.2⟩ (by decide)
+    (by
+      simp only [provedFrom, SVal.proved, provedElems, and_true, true_and]
+      refine ⟨⟨by decide +kernel, by decide +kernel⟩, by decide +kernel, ⟨by decide +kernel, by decide +kernel⟩,
+        by decide +kernel, by decide +kernel⟩)
+  simpa using this
 
 /-! ### instances of the full statement outside the proved class (evaluated, not general) -/
 
